@@ -231,6 +231,33 @@ def hdr_key_qualified(fn):
     raise TranslateError('Soap11.deserialize: unrecognised header lookup key')
 
 
+def parser_flag(init, key):
+    """XmlDocument.__init__: the value of self.parser_kwargs[key] of a protocol built with the default arguments
+    (a literal, or the default of the __init__ parameter handed on); a key that is not passed is lxml's default, False"""
+    dicts = [s.value for s in ast.walk(init) if isinstance(s, ast.Assign) and len(s.targets) == 1
+             and attr_chain(s.targets[0]) == ['self', 'parser_kwargs']]
+    if len(dicts) != 1 or not (isinstance(dicts[0], ast.Call) and is_name(dicts[0].func, 'dict') and not dicts[0].args):
+        raise TranslateError('XmlDocument.__init__: self.parser_kwargs is not one dict(key=value, ...)')
+    kws = dicts[0].keywords
+    if any(k.arg is None for k in kws):
+        raise TranslateError('XmlDocument.__init__: **mapping inside parser_kwargs')
+    vals = [k.value for k in kws if k.arg == key]
+    if not vals:
+        return False
+    v = vals[-1]
+    if isinstance(v, ast.Name):
+        a = init.args
+        pos = a.posonlyargs + a.args
+        defaults = dict(zip([x.arg for x in pos[len(pos) - len(a.defaults):]], a.defaults))
+        defaults.update((x.arg, d) for x, d in zip(a.kwonlyargs, a.kw_defaults) if d is not None)
+        if v.id not in defaults:
+            raise TranslateError('XmlDocument.__init__: parser_kwargs[%s] comes from %s, which has no default' % (key, v.id))
+        v = defaults[v.id]
+    if isinstance(v, ast.Constant) and isinstance(v.value, bool):
+        return v.value
+    raise TranslateError('XmlDocument.__init__: parser_kwargs[%s] is not a boolean literal' % key)
+
+
 def generate(repo):
     cm = parse(repo, 'spyne/model/complex.py')
     alt_inh = alt_inherited(cm)
@@ -244,6 +271,8 @@ def generate(repo):
     xi = bare_index(find_function(xml, ['XmlDocument', 'serialize']), 'result_inst', 'XmlDocument.serialize')
     si = bare_index(find_function(soap, ['Soap11', 'serialize']), 'out_object', 'Soap11.serialize')
     hq = hdr_key_qualified(find_function(soap, ['Soap11', 'deserialize']))
+    init = find_function(xml, ['XmlDocument', '__init__'])
+    rc, rp = parser_flag(init, 'remove_comments'), parser_flag(init, 'remove_pis')
     out = ['(* GENERATED by harness/translate/xmlwire.py from spyne/protocol/xml.py, spyne/protocol/soap/soap11.py,',
            '   spyne/const/__init__.py and spyne/const/xml.py.  Do not edit. *)',
            'From SpyneV Require Import Base.Prelude Base.Ext.', 'Open Scope Z_scope.', '',
@@ -259,6 +288,9 @@ def generate(repo):
            'Definition xw_alt_inherited : bool := %s.' % ('true' if alt_inh else 'false'), '',
            '(* Soap11.deserialize: header blocks are matched to the declared classes by {namespace}name (false: by local name) *)',
            'Definition xw_hdr_qualified : bool := %s.' % ('true' if hq else 'false'), '',
+           '(* XmlDocument.__init__, self.parser_kwargs of a protocol built with the default arguments *)',
+           'Definition xw_remove_comments : bool := %s.' % ('true' if rc else 'false'),
+           'Definition xw_remove_pis : bool := %s.' % ('true' if rp else 'false'), '',
            '(* serialize, non-wrapped body styles: which item of ctx.out_object is written *)',
            '(* None: the whole ctx.out_object sequence is handed to to_parent *)',
            'Definition xw_xml_bare_index : option Z := %s.' % ('None' if xi is None else '(Some %d)' % xi),
